@@ -34,6 +34,12 @@ func stuffBits(bits *utils.BitList, wordSize int) *utils.BitList {
 	out := new(utils.BitList)
 	n := bits.Len()
 	mask := (1 << uint(wordSize)) - 2
+	if n == 0 {
+		// an empty message still occupies one data word: pure padding (all ones,
+		// stuffed), otherwise the mode message would have to say "0 data words"
+		out.AddBits(mask, byte(wordSize))
+		return out
+	}
 	for i := 0; i < n; i += wordSize {
 		word := 0
 		for j := 0; j < wordSize; j++ {
